@@ -7,8 +7,12 @@ import Driver.MarkdownOps
 import Driver.YamlOps
 import Driver.TplOps
 import Driver.PrettyOps
+import Driver.CramOps
+import Driver.EscOps
+import Driver.RulesOps
 /-! Line-protocol driver: one operation per input line, one canonical line out. -/
 namespace Driver
+open Driver.CramOps Driver.MarkdownOps Driver.EscOps Driver.RulesOps Driver.YamlOps Driver.TplOps Driver.PrettyOps
 
 def step (line : String) : String :=
   match line.trimAscii.toString.splitOn " " with
@@ -40,6 +44,17 @@ def step (line : String) : String :=
   | "pdiff" :: args => opPDiff args
   | "hl" :: args => opHl args
   | "sections" :: args => opSections args
+  | "cram" :: args => opCram args
+  | "esc" :: args => opEsc args
+  | "unesc" :: args => opUnesc args
+  | "utf8" :: args => opUtf8 args
+  | "rulem" :: args => opRuleM args
+  | "glob" :: args => opGlob args
+  | "cglob" :: args => opCramGlob args
+  | "globl" :: args => opGlobLine args
+  | "rx" :: args => opRx args
+  | "rxl" :: args => opRxLine args
+  | "oracle-only" :: args => opOracleOnly args
   | _ => "bad-op"
 
 partial def loop (h : IO.FS.Stream) (out : IO.FS.Stream) : IO Unit := do
